@@ -74,7 +74,8 @@ var addCmd = &cobra.Command{
 			return errors.New("nothing specified, nothing added")
 		}
 		for _, arg := range args {
-			if _, err := os.Stat(arg); os.IsNotExist(err) {
+			// any stat error means that there is no such file, e.g. "a/b" where a is a file
+			if _, err := os.Stat(arg); err != nil {
 				// If the file does not exist but is registered in the index, delete it from the index
 				// but not delete here, just check it
 				cleanedArg := filepath.Clean(arg)
@@ -95,7 +96,7 @@ var addCmd = &cobra.Command{
 			}
 
 			// If the file does not exist but is registered in the index, delete it from the index
-			if _, err := os.Stat(arg); os.IsNotExist(err) {
+			if _, err := os.Stat(arg); err != nil {
 				_, _, isEntryFound := client.Idx.GetEntry([]byte(cleanedArg))
 				if !isEntryFound {
 					// args were validated above, so the entry was deleted by an earlier, identical arg
@@ -113,7 +114,7 @@ var addCmd = &cobra.Command{
 			}
 
 			// directory
-			if f, err := os.Stat(arg); !os.IsNotExist(err) && f.IsDir() {
+			if f, err := os.Stat(arg); err == nil && f.IsDir() {
 				// walk with the ignore list: neither .goit nor ignored paths beneath the directory are staged
 				filePaths, err := file.GetFilePathsUnderDirectoryWithIgnore(cleanedArg, client.Idx, client.Ignore)
 				if err != nil {
